@@ -253,6 +253,11 @@ type Clock struct {
 	At     bool  `json:"at,omitempty"`
 	Unix   int64 `json:"unix,omitempty"`
 	Offset int   `json:"offset,omitempty"`
+	// HostsFile: the other piece of the process environment the C04 verbs know — when set, the model composes
+	// the localhost names itself from the hosts file's records (`hostsrec=`, Model/C04.lean hpLocalhost)
+	// instead of taking Cfg.LocalNames
+	HostsFile bool          `json:"hosts_file,omitempty"`
+	Hosts     []HostsRecord `json:"hosts,omitempty"`
 }
 
 func (k *Clock) tokens() []string {
@@ -263,10 +268,14 @@ func (k *Clock) tokens() []string {
 	for _, e := range k.Entries {
 		es = append(es, fmt.Sprintf("%d-%d-%d", e.Weekday, e.HourStart, e.HourEnd))
 	}
-	if k.At {
-		return []string{"tf=" + core.JoinList(es), "at=" + core.JoinList([]string{fmt.Sprint(k.Unix), fmt.Sprint(k.Offset)})}
+	var hosts []string
+	if k.HostsFile {
+		hosts = []string{"hostsrec=" + HostsRecordsToken(k.Hosts)}
 	}
-	return []string{"tf=" + core.JoinList(es), "now=" + core.JoinList([]string{core.Itoa(k.Weekday), core.Itoa(k.Hour)})}
+	if k.At {
+		return append([]string{"tf=" + core.JoinList(es), "at=" + core.JoinList([]string{fmt.Sprint(k.Unix), fmt.Sprint(k.Offset)})}, hosts...)
+	}
+	return append([]string{"tf=" + core.JoinList(es), "now=" + core.JoinList([]string{core.Itoa(k.Weekday), core.Itoa(k.Hour)})}, hosts...)
 }
 
 // AskRequest: `C04 request` — outcome, upstream actions and (for refusals) error header fields of a
@@ -574,6 +583,19 @@ func decodeRoute(f []string) Route {
 // AskRouteSeq: `C05 routeseq` — one proxy instance (configuration rc, hosts-file aliases) folded over
 // the requests in order; one answer per request.
 func AskRouteSeq(m *core.Model, rc *RouteCfg, aliases []string, reqs []SeqReq) []SeqAnswer {
+	return AskRouteSeqEnv(m, rc, aliases, reqs, nil)
+}
+
+// Ambient is what the process environment names as proxies (C05.Ambient): the model takes it as an input of
+// every routing decision.
+type Ambient struct {
+	HTTPProxy  *ProxyURL `json:"http_proxy,omitempty"`
+	HTTPSProxy *ProxyURL `json:"https_proxy,omitempty"`
+	NoProxy    []string  `json:"no_proxy,omitempty"`
+}
+
+// AskRouteSeqEnv is AskRouteSeq for an instance in a process whose environment is env (nil = not given).
+func AskRouteSeqEnv(m *core.Model, rc *RouteCfg, aliases []string, reqs []SeqReq, env *Ambient) []SeqAnswer {
 	var rs []string
 	for _, q := range reqs {
 		k, qs := "r", "~"
@@ -586,6 +608,9 @@ func AskRouteSeq(m *core.Model, rc *RouteCfg, aliases []string, reqs []SeqReq) [
 		rs = append(rs, core.JoinList([]string{k, core.HexS(q.Scheme), core.HexS(q.Host), core.HexS(q.Path), qs}))
 	}
 	t := append([]string{"C05", "routeseq", "aliases=" + core.HexList(aliases), "reqs=" + core.JoinList2(rs)}, RouteTokens(rc, nil)...)
+	if env != nil {
+		t = append(t, "envhttp="+core.JoinList(env.HTTPProxy.atoms()), "envhttps="+core.JoinList(env.HTTPSProxy.atoms()), "envno="+core.HexList(env.NoProxy))
+	}
 	ans := m.MustAsk(t...)
 	parts := strings.Split(ans, " | ")
 	if !strings.HasPrefix(parts[0], "seq ") || len(parts)-1 != len(reqs) {
